@@ -66,6 +66,98 @@ CLAIMED = {
             "Trusted: TLC, ConnPath.tla as the reading of the documentation; upper-case names, numeric ports 0/>=15, IPv6, empty "
             "tokens, white space are 'unspec'.  The route as seen by a target in Forward Open is covered by C10/C14 sessions.",
             "TLA+ grammar interpreter model-checked with TLC + trace validation of recorded parses", "5/C15"),
+
+    "C01": ("session",
+            "LogixTarget.tla / LogixView.tla specify the controller (project, memory image, path resolution, Read Tag / Read Tag "
+            "Fragmented / Multiple Service Packet) and what read() must return (value by type descriptor through CipTypes, BOOL "
+            "ranges, bits, type strings).  Transfer.tla and Grouping.tla model-check pycomm3's fragment / grouping decisions with "
+            "the real overheads against the contract (R1).  Recorded LogixDriver sessions on generated projects are replayed by "
+            "TLC: every reply of the reference target is recomputed from the spec, every read result compared with the spec's "
+            "expectation (R3).",
+            "Trusted: TLC, the transcription of Logix 5000 Data Access into LogixTarget.tla, the scripted socket/recorder.  The Python "
+            "reference target is NOT trusted (every reply recomputed, mismatch = machinery failure).  Projects/requests are sampled.",
+            "TLA+ controller + view specification; design models checked with TLC; recorded sessions validated against the spec", "5/C01"),
+    "C02": ("session",
+            "As C01 for writes: LogixView!ExpectWrite gives the bytes each request must put at its slice; after every write call TLC "
+            "compares the specification's memory image (updated by replaying the recorded Write Tag / Write Tag Fragmented / "
+            "Read-Modify-Write services) with the pre-call image patched by the expected effects of the requests reported truthy "
+            "(effect, nothing outside, exactly once via the ledger of executed services); each write is followed by a read-back.",
+            "Trusted: as C01.  Overlapping writes in one call are not generated (except several bits of one word).",
+            "TLA+ controller memory model; recorded write sessions validated against the spec", "5/C02"),
+    "C03": ("session",
+            "ClientContract part of TraceSession/LogixView: result shape and count, order by position, names, invalid requests falsy "
+            "with non-empty error, no exception, and isolation = every request is judged independently of its neighbours; "
+            "Grouping.tla shows every sendable request lands in exactly one packet (R1); sessions mix valid/invalid requests at "
+            "every position incl. long lists spanning packets (R3).  Tag.__bool__ truth table through TraceEnum.",
+            "Trusted: as C01; which requests 'cannot succeed' is decided by the specification (LogixView), not by the harness.",
+            "TLA+ contract on call results; recorded sessions validated against the spec", "5/C03"),
+    "C04": ("session",
+            "Transfer.tla: the fragment/group decision and fragment loops with real overheads and every target fragment length, "
+            "checked exhaustively against FitsRequest / FitsReply / contiguous offsets / exact cover (+ termination in the thorough "
+            "config) (R1).  R3: every connected frame of every session is checked against the size granted at Forward Open, every "
+            "fragment offset against the bytes transferred so far, with window sessions covering all sizes around 500/4000 and "
+            "their multiples for several element widths and target capacities.",
+            "Trusted: as C01; the connection size counts the connected data item including its sequence count.",
+            "TLA+ transfer design model checked with TLC; per-frame contract checked on recorded sessions", "5/C04"),
+    "C05": ("session",
+            "LogixTarget.tla specifies the Symbol object (paged Get Instance Attribute List) and Template object (attributes, "
+            "fragmented read, member records, names) and LogixView!UploadClause what tags / data_types / programs / tasks must "
+            "contain; sessions upload generated projects (all symbol categories, sparse ids, nested UDTs, strings and look-alikes) "
+            "under three pagination/fragmentation schedules per project and several firmware generations.",
+            "Trusted: as C01; external access compared only for firmware >= 18.",
+            "TLA+ symbol/template object specification; recorded uploads validated against the spec", "5/C05"),
+    "C10": ("session",
+            "Lifecycle.tla transcribes open/close/forward open with fall-back/forward close/unregister step by step (each raw send "
+            "and receive may fail or find the peer gone) and is model-checked against the contract for every history of 6 calls x 4 "
+            "target policies x every fault position incl. termination (R1); TLC prints every behaviour of 3 calls which is "
+            "replayed on the real CIPDriver, plus fault-then-reuse and seeded longer histories on CIPDriver/LogixDriver and "
+            "with-blocks (R2); TraceSession guards/obligations C10:* judge every frame and return (R3).",
+            "Trusted: TLC, EipTarget/TraceSession as the reading of the property, the scripted socket.  One fault per scenario; "
+            "timing is not modelled.",
+            "TLA+ lifecycle design model checked with TLC; TLC-generated histories replayed; recorded sessions validated", "5/C10"),
+    "C11": ("session",
+            "Encap.tla is a strict parser of request frames; EncapModel.tla shows by TLC that it accepts exactly the well-formed "
+            "frames and names the broken field (R1).  Every frame emitted in a cross-section of all session families (arbitrary "
+            "handles and connection ids, payload lengths, faults and re-opens) is parsed inside TraceSession, incl. handle = the "
+            "handle granted in this TCP connection and connection id = the target's id (R3).",
+            "Trusted: TLC, the transcription of CIP Vol 2 ch. 2 into Encap.tla.",
+            "TLA+ strict frame parser model-checked with TLC; every recorded frame validated", "5/C11"),
+    "C13": ("session",
+            "TraceSession / LogixView obligations on results: truthy iff encapsulation and general status are ok (status 6 only "
+            "for continuing services), non-empty error naming the status, no success from replies too short for their status "
+            "words, only library exceptions.  Sessions answer generic messages with status codes x extended sizes x transports, "
+            "inject statuses into tag services (incl. mid-transfer fragments, members of multi-service packets) and truncate / "
+            "corrupt / replace replies; the corrupted reply is recomputed by the specification from the logged corruption.",
+            "Trusted: as C10; status texts are data exported from the code, the rule is the specification's.",
+            "TLA+ reply-classification contract; recorded sessions with injected statuses and corrupted replies validated", "5/C13"),
+    "C14": ("session",
+            "TraceSession!CheckGeneric compares the message-router request the specification parses out of each frame (service, "
+            "strictly parsed path, data, transport, Unconnected Send length/pad/route) with the call's intent, and the returned "
+            "Tag with the scripted reply (raw or decoded through CipTypes); helper calls (name, info, module info, get/set time) "
+            "are judged against the specified objects.",
+            "Trusted: as C10; direct UCMM appends the sized route to the data by design; Unconnected Send without route unspecified.",
+            "TLA+ message-router / Unconnected Send layouts; recorded generic-message sessions validated", "5/C14"),
+    "C16": ("session",
+            "IdentityView.tla states the identity layout and the user's view; TraceIdent.tla judges decodes of generated identities "
+            "over the full 16-bit vendor / product-type range against the exported tables, every name length, round trip; "
+            "TraceSession judges _list_identity / get_module_info / get_plc_info against the target's configured identity.",
+            "Trusted: TLC, IdentityView.tla; vendor/product texts are exported data; discover()'s UDP sockets are out of scope.",
+            "TLA+ identity layout/view; recorded decodes and sessions validated", "5/C16"),
+    "C17": ("session",
+            "SeqCount.tla models the counter and every operation kind; its constants (counts drawn per multi-service member, per "
+            "fragmented transfer, per SLC request) are MEASURED from the implementation on each run, then TLC proves freshness "
+            "for all histories of 6 operations with scaled moduli or yields a counterexample that is replayed at real scale "
+            "(R1/R2); sessions advance the real counter to every wrap phase and cross it with every operation kind; the guard "
+            "C17:repeat is evaluated on every connected frame of every session (R3).",
+            "Trusted: TLC; the measurement of design parameters through the driver's public generator object.",
+            "TLA+ counter model bound to measured parameters, checked with TLC; recorded sessions validated", "5/C17"),
+    "C18": ("session",
+            "SlcTarget.tla specifies the data table, the PCCC typed read / masked write with the 0xFF escape and SlcView (what an "
+            "address denotes); TraceSession compares every PCCC request with the address intent and every result / the table with "
+            "the expectation for SLCDriver sessions over all address forms, boundary file/element numbers, bits, counts, values "
+            "and invalid addresses.",
+            "Trusted: TLC, the transcription of DF1 1770-6.5.16 into SlcTarget.tla; timer/counter sub-elements are only read.",
+            "TLA+ PCCC / data-table specification; recorded SLC sessions validated", "5/C18"),
 }
 
 PENDING_REASON = "check not built yet in this round (construction order in DESIGN.md section 9); no claim is made"
@@ -107,6 +199,11 @@ def build():
             {"name": "path", "path": "spec/EPath.tla spec/ConnPath.tla spec/PathModel.tla spec/ConnPathModel.tla spec/TracePath.tla "
              "vf/props/c09.py vf/props/c15.py", "serves_properties": ["C09", "C15"],
              "kind_free_text": "TLA+ strict EPATH parser and path-grammar interpreter; TLC trace validation"},
+            {"name": "session", "path": "spec/Encap.tla spec/EipTarget.tla spec/LogixTarget.tla spec/LogixView.tla spec/SlcTarget.tla "
+             "spec/IdentityView.tla spec/TraceSession.tla spec/TraceIdent.tla spec/Lifecycle.tla spec/SeqCount.tla spec/Transfer.tla "
+             "spec/Grouping.tla spec/EncapModel.tla vf/session.py vf/simtarget.py vf/session_engine.py vf/projgen.py vf/scenarios.py "
+             "vf/props/", "serves_properties": ["C01", "C02", "C03", "C04", "C05", "C10", "C11", "C13", "C14", "C16", "C17", "C18"],
+             "kind_free_text": "real drivers over a scripted socket + untrusted reference target; every trace replayed by TLC against the TLA+ target/contract"},
             {"name": "socket", "path": "spec/SocketIO.tla spec/TraceSocket.tla vf/props/c12.py vf/fakesock.py",
              "serves_properties": ["C12"], "kind_free_text": "TLA+ model of the byte-stream loops; schedules from TLC replayed into Socket; trace validation"},
         ],
